@@ -133,6 +133,7 @@ func c19GraphFragment(ast *syntax.Ast) string {
 type c19GraphPrinter struct {
 	callableOf map[string]string // fqid -> callable name
 	odd        string            // an expression kind outside the fragment
+	withDis    bool              // print DisabledExp as ( D control value ) instead of flagging it
 }
 
 func (gp *c19GraphPrinter) exp(e *c19Enc, x syntax.Exp) {
@@ -197,8 +198,16 @@ func (gp *c19GraphPrinter) exp(e *c19Enc, x syntax.Exp) {
 		gp.odd = "merge"
 		e.tok("?merge")
 	case *syntax.DisabledExp:
-		gp.odd = "disabled"
-		e.tok("?disabled")
+		if gp.withDis {
+			e.tok("(")
+			e.tok("D")
+			gp.exp(e, x.Disabled)
+			gp.exp(e, x.Value)
+			e.tok(")")
+		} else {
+			gp.odd = "disabled"
+			e.tok("?disabled")
+		}
 	case nil:
 		e.tok("?nil")
 	default:
@@ -209,14 +218,60 @@ func (gp *c19GraphPrinter) exp(e *c19Enc, x syntax.Exp) {
 	}
 }
 
-// c19GraphLines prints the real graph, one line per node, sorted.
-func c19GraphLines(g syntax.CallGraphNode) (lines []string, odd string, err error) {
+type c19GNode struct {
+	Fqid, Callable, Kind string
+	Keys                 []string          // input names, sorted
+	Ins                  map[string]string // input name -> printed resolved expression
+	Out, Ret             string
+	Dis                  string // with disabled modifiers: the node's disable list
+	withDis              bool
+}
+
+func (n *c19GNode) line() string {
+	var e c19Enc
+	e.tok("(")
+	e.tok("N")
+	e.tok(n.Fqid)
+	e.tok(n.Callable)
+	e.tok(n.Kind)
+	e.tok("(")
+	for _, k := range n.Keys {
+		e.tok("(")
+		e.tok(k)
+		e.tok(n.Ins[k])
+		e.tok(")")
+	}
+	e.tok(")")
+	e.tok(n.Out)
+	e.tok("(")
+	if n.Ret != "" {
+		e.tok(n.Ret)
+	}
+	e.tok(")")
+	if n.withDis {
+		e.tok("(")
+		if n.Dis != "" {
+			e.tok(n.Dis)
+		}
+		e.tok(")")
+	}
+	e.tok(")")
+	return e.sb.String()
+}
+
+// c19GraphNodes walks the real graph.
+func c19GraphNodes(g syntax.CallGraphNode) (nodes []*c19GNode, odd string, err error) {
+	return c19GraphNodesD(g, false)
+}
+
+// c19GraphNodesD: withDis = the encoding of C19.graphd (DisabledExp printed, disable list per node).
+func c19GraphNodesD(g syntax.CallGraphNode, withDis bool) (nodes []*c19GNode, odd string, err error) {
 	defer func() {
 		if p := recover(); p != nil {
 			err = fmt.Errorf("PANIC while printing the call graph: %v", p)
 		}
 	}()
-	gp := &c19GraphPrinter{callableOf: map[string]string{}}
+	gp := &c19GraphPrinter{callableOf: map[string]string{}, withDis: withDis}
 	var all []syntax.CallGraphNode
 	var walk func(n syntax.CallGraphNode)
 	walk = func(n syntax.CallGraphNode) {
@@ -228,58 +283,100 @@ func c19GraphLines(g syntax.CallGraphNode) (lines []string, odd string, err erro
 	}
 	walk(g)
 	for _, n := range all {
-		var e c19Enc
-		e.tok("(")
-		e.tok("N")
-		e.tok(n.GetFqid())
-		e.tok(n.Callable().GetId())
+		gn := &c19GNode{Fqid: n.GetFqid(), Callable: n.Callable().GetId(), Kind: "S", Ins: map[string]string{}, withDis: withDis}
 		if n.Kind() == syntax.KindPipeline {
-			e.tok("P")
-		} else {
-			e.tok("S")
+			gn.Kind = "P"
 		}
 		ins := n.ResolvedInputs()
-		keys := make([]string, 0, len(ins))
 		for k := range ins {
-			keys = append(keys, k)
+			gn.Keys = append(gn.Keys, k)
 		}
-		sort.Strings(keys)
-		e.tok("(")
-		for _, k := range keys {
-			e.tok("(")
-			e.tok(k)
+		sort.Strings(gn.Keys)
+		for _, k := range gn.Keys {
 			if ins[k] == nil {
-				e.tok("?nil")
+				gn.Ins[k] = "?nil"
 			} else {
+				var e c19Enc
 				gp.exp(&e, ins[k].Exp)
+				gn.Ins[k] = e.sb.String()
 			}
-			e.tok(")")
 		}
-		e.tok(")")
 		if out := n.ResolvedOutputs(); out != nil {
+			var e c19Enc
 			gp.exp(&e, out.Exp)
+			gn.Out = e.sb.String()
 		} else {
 			// a stage without outputs has no resolved output binding
-			e.tok("( L " + hx("null") + " )")
+			gn.Out = "( L " + hx("null") + " )"
 		}
-		e.tok("(")
 		if n.Kind() == syntax.KindPipeline {
+			var e c19Enc
 			for _, r := range n.Retained() {
 				gp.exp(&e, r)
 			}
+			gn.Ret = e.sb.String()
 		}
-		e.tok(")")
-		e.tok(")")
 		if len(n.Disabled()) > 0 {
-			gp.odd = "disabled"
+			if withDis {
+				var e c19Enc
+				for _, d := range n.Disabled() {
+					gp.exp(&e, d)
+				}
+				gn.Dis = e.sb.String()
+			} else {
+				gp.odd = "disabled"
+			}
 		}
 		if len(n.ForkRoots()) > 0 {
 			gp.odd = "forks"
 		}
-		lines = append(lines, e.sb.String())
+		nodes = append(nodes, gn)
+	}
+	return nodes, gp.odd, nil
+}
+
+// c19GraphLines prints the real graph, one line per node, sorted.
+func c19GraphLines(g syntax.CallGraphNode) (lines []string, odd string, err error) {
+	nodes, odd, err := c19GraphNodes(g)
+	if err != nil {
+		return nil, odd, err
+	}
+	for _, n := range nodes {
+		lines = append(lines, n.line())
 	}
 	sort.Strings(lines)
-	return lines, gp.odd, nil
+	return lines, odd, nil
+}
+
+// c19GraphLe: every node of `after` is a node of `before` with the same callable, kind, resolved
+// outputs and retained references, and every resolved input of it is an input of the original
+// node with the same resolved value (the conclusion of remove_unused_calls_loop_graph_partial).
+func c19GraphLe(after, before []*c19GNode) string {
+	idx := map[string]*c19GNode{}
+	for _, n := range before {
+		idx[n.Fqid] = n
+	}
+	for _, n := range after {
+		m := idx[n.Fqid]
+		if m == nil {
+			return "node " + n.Fqid + " does not exist before the edit"
+		}
+		if m.Callable != n.Callable || m.Kind != n.Kind {
+			return "node " + n.Fqid + ": callable / kind changed"
+		}
+		if m.Out != n.Out {
+			return "node " + n.Fqid + ": resolved outputs changed: " + m.Out + " -> " + n.Out
+		}
+		if m.Ret != n.Ret {
+			return "node " + n.Fqid + ": retained references changed"
+		}
+		for _, k := range n.Keys {
+			if v, ok := m.Ins[k]; !ok || v != n.Ins[k] {
+				return "node " + n.Fqid + ": resolved input " + k + " changed: " + v + " -> " + n.Ins[k]
+			}
+		}
+	}
+	return ""
 }
 
 func c19ModelGraphLines(rep string) []string {
@@ -291,6 +388,91 @@ func c19ModelGraphLines(rep string) []string {
 	return lines
 }
 
+// c19GraphTieD: the model with `disabled` modifiers (deepGraphD, C19.graphd) against the real graph.
+// expectSame: the program has no disabled modifier, deepGraphD must be the embedding of deepGraph.
+func c19GraphTieD(c *Ctx, plain, compiled *syntax.Ast, g syntax.CallGraphNode, expectSame bool) (verdict string, real, model []string) {
+	if c19HasMapCall(compiled) {
+		return "skip:map-call", nil, nil
+	}
+	nodes, odd, err := c19GraphNodesD(g, true)
+	if err != nil {
+		return "skip:" + err.Error(), nil, nil
+	}
+	if odd != "" {
+		return "skip:resolved-" + odd, nil, nil
+	}
+	for _, n := range nodes {
+		real = append(real, n.line())
+	}
+	sort.Strings(real)
+	rep := c.Drv.Ask("C19.graphd", c19Encode(plain), c19EncodeTypes(compiled))
+	if rep == "bad-op" || !strings.HasPrefix(rep, "same=") {
+		return "driver could not evaluate C19.graphd", real, nil
+	}
+	sp := strings.IndexByte(rep, ' ')
+	same, rest := rep[:sp], rep[sp+1:]
+	if expectSame && same != "same=true" {
+		return "deepGraphD is not the embedding of deepGraph on a program without disabled modifiers", real, nil
+	}
+	model = c19ModelGraphLines(rest)
+	if len(real) != len(model) {
+		return fmt.Sprintf("(with disabled) node count: real %d, model %d", len(real), len(model)), real, model
+	}
+	for i := range real {
+		if real[i] != model[i] {
+			return fmt.Sprintf("(with disabled) node %d differs:\n  real : %s\n  model: %s", i, real[i], model[i]), real, model
+		}
+	}
+	return "equal-with-disabled", real, model
+}
+
+// c19HasMapCall: a map call / split anywhere in the program.
+func c19HasMapCall(ast *syntax.Ast) bool {
+	var hasSplit func(x syntax.Exp) bool
+	hasSplit = func(x syntax.Exp) bool {
+		switch x := x.(type) {
+		case *syntax.SplitExp:
+			return true
+		case *syntax.ArrayExp:
+			for _, v := range x.Value {
+				if hasSplit(v) {
+					return true
+				}
+			}
+		case *syntax.MapExp:
+			for _, v := range x.Value {
+				if hasSplit(v) {
+					return true
+				}
+			}
+		}
+		return false
+	}
+	check := func(c *syntax.CallStm) bool {
+		if c.CallMode() != syntax.ModeSingleCall {
+			return true
+		}
+		if c.Bindings != nil {
+			for _, b := range c.Bindings.List {
+				if hasSplit(b.Exp) {
+					return true
+				}
+			}
+		}
+		return false
+	}
+	for _, cl := range ast.Callables.List {
+		if p, ok := cl.(*syntax.Pipeline); ok {
+			for _, call := range p.Calls {
+				if check(call) {
+					return true
+				}
+			}
+		}
+	}
+	return ast.Call != nil && check(ast.Call)
+}
+
 // c19GraphTie compares the model's deepGraph of the (uncompiled) program with
 // the real call graph of its compiled form.  Returns "" when equal, "skip:<why>"
 // when the program is outside the fragment, else a description of the first
@@ -299,7 +481,9 @@ func c19GraphTie(c *Ctx, plain, compiled *syntax.Ast, g syntax.CallGraphNode) (v
 	if c.Drv == nil || g == nil {
 		return "skip:no-driver-or-graph", nil, nil
 	}
-	if why := c19GraphFragment(compiled); why != "" {
+	if why := c19GraphFragment(compiled); why == "disabled" {
+		return c19GraphTieD(c, plain, compiled, g, false)
+	} else if why != "" {
 		return "skip:" + why, nil, nil
 	}
 	real, odd, err := c19GraphLines(g)
@@ -334,14 +518,36 @@ func c19GraphTieCase(c *Ctx, cs *c19Case, plain *syntax.Ast, base *c19Compiled) 
 	if base.Graph == nil {
 		return
 	}
+	// the encoding itself: the driver's parser and printer are inverse on it
+	if enc := c19Encode(plain); c.Drv != nil {
+		if rep := c.Drv.Ask("C19.roundtrip", enc); rep != enc {
+			r.violate(Violation{Kind: "correspondence", Key: "C19:encoding-roundtrip",
+				What: "the driver's parser/printer do not round-trip the encoded program", Input: c19Replay{Program: cs.Src, Note: "found in " + cs.Name},
+				Impl: enc, Model: rep, Broken: "correspondence C19 (program encoding)"})
+		}
+	}
 	verdict, real, model := c19GraphTie(c, plain, base.Ast, base.Graph)
 	switch {
+	case verdict == "equal-with-disabled":
+		r.hist("graph-tie:equal(with-disabled-modifiers)")
+		r.count("graphd\x00"+cs.Src, len(real) > 1)
 	case verdict == "":
 		r.hist("graph-tie:equal")
 		r.count("graph\x00"+cs.Src, len(real) > 1)
 		c19GraphSeen++
-		// thorough tier: the graph tie on every program, the theorem instances and real edits on every third
-		if !c.Thorough || c19GraphSeen%3 == 0 {
+		if c19GraphSeen%3 == 1 {
+			// deepGraphD (the model with disabled modifiers) must be the embedding of deepGraph here, and equal the real graph
+			if v, rl, ml := c19GraphTieD(c, plain, base.Ast, base.Graph, true); v != "equal-with-disabled" && !strings.HasPrefix(v, "skip:") {
+				r.violate(Violation{Kind: "correspondence", Key: "C19:deepgraphD-model-differs",
+					What:  "on a program without disabled modifiers: " + v,
+					Input: c19Replay{Program: cs.Src, Note: "found in " + cs.Name}, Impl: strings.Join(rl, "\n"), Model: strings.Join(ml, "\n"),
+					Broken: "correspondence Martian.Refactor.deepGraphD ~ deepGraph ~ syntax.Ast.MakeCallGraph"})
+			} else {
+				r.hist("graph-tie:deepGraphD=embedding-of-deepGraph")
+			}
+		}
+		// thorough tier: the graph tie on every program, the theorem instances and real edits on every fifth
+		if !c.Thorough || c19GraphSeen%5 == 0 {
 			c19GraphTheorems(c, cs, plain, base)
 		}
 	case strings.HasPrefix(verdict, "skip:"):
@@ -369,7 +575,7 @@ func c19GraphExtra(c *Ctx, want int) {
 	made := 0
 	for tries := 0; made < want && tries < 40*want; tries++ {
 		p := c19Gen(c.Rng)
-		if p == nil || p.Features["map-call"] || p.Features["disabled"] {
+		if p == nil || p.Features["map-call"] {
 			continue
 		}
 		src, err := c19Format(p.Src, path)
@@ -424,16 +630,19 @@ func c19GraphTheorems(c *Ctx, cs *c19Case, plain *syntax.Ast, base *c19Compiled)
 		}
 		return cs
 	}
-	n := 2
-	if c.Thorough {
-		n = 3
-	}
+	n := 1
 	var rems []cand
 	for _, cd := range ins {
 		rems = append(rems, cand{"removeInput", cd.callable, cd.param})
 	}
+	var remo []cand
+	for _, cd := range outs {
+		remo = append(remo, cand{"removeOutput", cd.callable, cd.param})
+	}
 	all := append(append(pick(ins, n), pick(outs, n)...), pick(cals, 1)...)
 	all = append(all, pick(rems, n)...)
+	all = append(all, pick(remo, n)...)
+	all = append(all, cand{"removeCalls", "", ""})
 	for _, cd := range all {
 		newName := "zz_fresh"
 		if cd.op == "renameCallable" {
@@ -443,7 +652,11 @@ func c19GraphTheorems(c *Ctx, cs *c19Case, plain *syntax.Ast, base *c19Compiled)
 		if a == "" {
 			a = "-"
 		}
-		rep := c.Drv.Ask("C19.gthm", enc, types, cd.op, cd.callable, a, newName)
+		cname := cd.callable
+		if cname == "" {
+			cname = "-"
+		}
+		rep := c.Drv.Ask("C19.gthm", enc, types, cd.op, cname, a, newName)
 		f := map[string]string{}
 		for _, kv := range strings.Fields(rep) {
 			if j := strings.IndexByte(kv, '='); j > 0 {
@@ -452,11 +665,23 @@ func c19GraphTheorems(c *Ctx, cs *c19Case, plain *syntax.Ast, base *c19Compiled)
 		}
 		r.hist("graph-theorem:" + cd.op + " hyp=" + f["hyp"])
 		e := c19Edit{Op: cd.op, Callable: cd.callable, Param: cd.param, NewName: newName}
+		if cd.op == "removeCalls" {
+			e = c19Edit{Op: "removeUnused", Calls: true}
+		}
+		if f["derived"] != "" {
+			r.hist("graph-theorem:removeInput derived-hyp=" + f["derived"])
+			if f["implies"] != "true" {
+				r.violate(Violation{Kind: "correspondence", Key: "C19:graph-theorem-instance",
+					What:   "StructOK and seedOK hold but RemInsOK of the closure does not (closure_remInsOK): " + rep,
+					Input:  c19Replay{Program: cs.Src, Edit: e, Note: "found in " + cs.Name},
+					Broken: "Props.C19.remove_input_closure_graph"})
+			}
+		}
 		if rep == "bad-op" || (f["hyp"] == "true" && f["same"] != "true") {
 			r.violate(Violation{Kind: "correspondence", Key: "C19:graph-theorem-instance",
 				What:   "an instance of the call-graph theorem for " + cd.op + " evaluates to false in the model (or could not be evaluated): " + rep,
 				Input:  c19Replay{Program: cs.Src, Edit: e, Note: "found in " + cs.Name},
-				Broken: "Props.C19.rename_input_graph / rename_output_graph / rename_callable_graph"})
+				Broken: "Props.C19.rename_input_graph / rename_output_graph_partial / rename_callable_graph_partial"})
 			continue
 		}
 		r.count("graph-thm\x00"+cs.Src+"\x00"+e.String(), f["hyp"] == "true")
@@ -470,9 +695,27 @@ func c19GraphTheorems(c *Ctx, cs *c19Case, plain *syntax.Ast, base *c19Compiled)
 			continue
 		}
 		after, err := c19Compile(out, cs.Path)
-		if (err != nil || after.Graph == nil) && cd.op == "removeInput" {
+		if (err != nil || after.Graph == nil) && strings.HasPrefix(cd.op, "remove") {
 			// removals that do not compile are the known findings KF4/KF5, handled by the main edit loop
-			r.hist("graph-theorem:removeInput:real-result-does-not-compile")
+			r.hist("graph-theorem:" + cd.op + ":real-result-does-not-compile")
+			continue
+		}
+		if cd.op == "removeCalls" {
+			// the conclusion of remove_unused_calls_loop_graph_partial on the REAL graphs before / after the real edit
+			bn, odd1, err1 := c19GraphNodes(base.Graph)
+			an, odd2, err2 := c19GraphNodes(after.Graph)
+			if err1 != nil || err2 != nil || odd1 != "" || odd2 != "" {
+				continue
+			}
+			if d := c19GraphLe(an, bn); d != "" {
+				r.violate(Violation{Kind: "property", Key: "C19:graph-theorem:remove-unused-calls-changed-a-remaining-node",
+					What:   "after the real `remove unused calls` edit a remaining node of the resolved call graph differs from the node before (StructOK holds, so remove_unused_calls_loop_graph_partial applies): " + d,
+					Input:  c19Replay{Program: cs.Src, Edit: e, Note: "found in " + cs.Name},
+					Impl:   out,
+					Broken: "Props.C19.remove_unused_calls_loop_graph on the real code"})
+			} else {
+				r.hist(fmt.Sprintf("graph-theorem:removeCalls:real-graph-le(removed-nodes=%d)", len(bn)-len(an)))
+			}
 			continue
 		}
 		if err != nil || after.Graph == nil {
@@ -489,11 +732,11 @@ func c19GraphTheorems(c *Ctx, cs *c19Case, plain *syntax.Ast, base *c19Compiled)
 		if strings.Join(real, "\n") != strings.Join(pred, "\n") {
 			r.hist("graph-theorem:prediction-DIFFERENT")
 			r.violate(Violation{Kind: "property", Key: "C19:graph-theorem:real-graph-differs-from-prediction",
-				What:   "after the real edit " + e.String() + " the real call graph is not the graph before with the parameter renamed (the conclusion of rename_input_graph / rename_output_graph, whose hypothesis holds for this program)",
+				What:   "after the real edit " + e.String() + " the real call graph is not the graph before with the parameter renamed (the conclusion of rename_input_graph_partial / rename_output_graph_partial, whose hypothesis holds for this program)",
 				Input:  c19Replay{Program: cs.Src, Edit: e, Note: "found in " + cs.Name},
 				Impl:   strings.Join(real, "\n"),
 				Model:  strings.Join(pred, "\n"),
-				Broken: "Props.C19.rename_input_graph / rename_output_graph on the real code"})
+				Broken: "Props.C19.rename_input_graph / rename_output_graph_partial on the real code"})
 		} else {
 			r.hist("graph-theorem:" + cd.op + ":prediction-equals-real-graph")
 		}
